@@ -771,8 +771,45 @@ class DictView(V):
         self.d, self.which = d, which
 
 
+def _str_format(eng, st, s: StrV, pos, kw):
+    """template.format(*pos, **kw) for a constant template whose fields are plain {}, {0}, {name} (no conversions,
+    no format specs, no attribute/index access)."""
+    import string
+
+    tt = _simp(s.t)
+    if not z3.is_string_value(tt) or "**" in kw:
+        raise Unsupported("str.format on a non-constant template")
+    parts, auto = [], 0
+    for lit, field, spec, conv in string.Formatter().parse(tt.as_string()):
+        if lit:
+            parts.append(z3.StringVal(lit))
+        if field is None:
+            continue
+        if spec or conv or any(ch in field for ch in ".[]"):
+            raise Unsupported("str.format with a format spec / conversion / attribute access")
+        if field == "":
+            if auto >= len(pos):
+                return [(st, RaiseV("IndexError", None, "format: positional index out of range"))]
+            v = pos[auto]
+            auto += 1
+        elif field.isdigit():
+            if int(field) >= len(pos):
+                return [(st, RaiseV("IndexError", None, "format: positional index out of range"))]
+            v = pos[int(field)]
+        else:
+            if field not in kw:
+                return [(st, RaiseV("KeyError", None, f"format: no field {field}"))]
+            v = kw[field]
+        parts.append(to_str(eng, v).t)
+    if not parts:
+        return [(st, StrV(""))]
+    return [(st, StrV(parts[0] if len(parts) == 1 else z3.Concat(*parts)))]
+
+
 def str_method(eng, st, s: StrV, meth, pos, kw, node):
     t = s.t
+    if meth == "format":
+        return _str_format(eng, st, s, pos, kw)
     if meth == "startswith" and len(pos) == 1 and isinstance(pos[0], StrV):
         return [(st, BoolV(z3.PrefixOf(pos[0].t, t)))]
     if meth == "endswith" and len(pos) == 1 and isinstance(pos[0], StrV):
@@ -853,7 +890,18 @@ def str_method(eng, st, s: StrV, meth, pos, kw, node):
         sig = "_".join("s" if isinstance(p, StrV) else "i" for p in args)
         f = z3.Function(f"py_str_{meth}_{len(pos)}_{sig}", z3.StringSort(), *[p.t.sort() for p in args], rk.sort())
         eng.trusted_used.add(f"str.{meth}: uninterpreted pure function of its arguments")
-        return [(st, unbox(f(t, *[p.t for p in args]), rk))]
+        r = f(t, *[p.t for p in args])
+        if meth == "split" and len(args) == 1 and isinstance(args[0], StrV):
+            # facts of str.split(sep) for a non-empty separator: at least one piece; no separator -> the string itself;
+            # otherwise the first piece is the text before the first separator and there is a second piece
+            sep = args[0].t
+            has = z3.Contains(t, sep)
+            eng.trusted_used.add("str.split(sep): head facts (first piece = text before the first separator)")
+            st = st.assume(z3.Implies(z3.Length(sep) > 0, And(
+                z3.Length(r) >= 1,
+                z3.Implies(z3.Not(has), r == z3.Unit(t)),
+                z3.Implies(has, And(z3.Length(r) >= 2, r[0] == z3.SubString(t, 0, z3.IndexOf(t, sep, 0)))))))
+        return [(st, unbox(r, rk))]
     raise Unsupported(f"str.{meth}")
 
 
